@@ -175,7 +175,8 @@ def run(ctx: Ctx):
                     cur_b = None
                     hooks = []
                 elif e[0] == "R" and e[1] == "C":
-                    endres = (e[3], e[5], e[7], [(p.hooks[h[1]], h[2]) for h in run_.events if h[0] == "H" and run_.events.index(h) > max([i for i, x in enumerate(run_.events) if x[0] == "v"] or [0])])
+                    last_v = max([i for i, x in enumerate(run_.events) if x[0] == "v"] or [0])
+                    endres = (e[3], e[5], e[7], [(p.hooks[h[1]], h[2]) for hi, h in enumerate(run_.events) if h[0] == "H" and hi > last_v])
             syms = list(per.items())
             if endres is not None:
                 syms.append((am.END, endres))
